@@ -80,7 +80,15 @@ var registryModel = porcupine.Model{
 }
 
 var c17SniffJSON = []string{minimalCDX15, `{"spdxVersion":"SPDX-2.3","SPDXID":"SPDXRef-DOCUMENT"}`, `{"bomFormat":"CycloneDX","specVersion":"1.4"}`, `{"x":1}`}
-var c17SniffTV = []string{"SPDXVersion: SPDX-2.3\nDataLicense: CC0-1.0\n", "x\ny\nSPDXVersion: SPDX-2.2\n", "SPDXVersion:\n\"SPDX-2.3\"\n", "nothing here\nat all\n", "a\nb\nc\nSPDXVersion: SPDX-2.3"}
+var filler = strings.Repeat("PackageName: filler\nPackageComment: nothing to see\n", 150)
+
+// tag-value inputs; several keep detection state across many lines, so that a concurrent detection has a wide
+// window in which leaked or lost scratch state changes the answer
+var c17SniffTV = []string{"SPDXVersion: SPDX-2.3\nDataLicense: CC0-1.0\n", "x\ny\nSPDXVersion: SPDX-2.2\n", "SPDXVersion:\n\"SPDX-2.3\"\n", "nothing here\nat all\n", "a\nb\nc\nSPDXVersion: SPDX-2.3",
+	"SPDXVersion:\n" + filler + "\"SPDX-2.3\"\n",  // tag first, quoted version 300 lines later: SPDX 2.3 tag-value
+	filler + "spdxVersion: 'SPDX-2.2'\n" + filler, // quoted version without a tag (YAML-like): no format
+	"SPDXVersion: SPDX-2.1\n" + filler,            // unsupported version: no format, leaves partial state behind
+	filler + "SPDXVersion: SPDX-2.2\n"}
 
 func c17Docs() []*sbom.Document {
 	var out []*sbom.Document
@@ -345,3 +353,43 @@ func describeHistory(h []porcupine.Operation) string {
 }
 
 func TestC17(t *testing.T) { rapid.Check(t, c17Property) }
+
+// TestC17SniffStress: 8 goroutines x 150 detections over the tag-value inputs (which carry state across hundreds of
+// lines), every result compared with the sequential one. Fixed program; run in the -race binary.
+func TestC17SniffStress(t *testing.T) {
+	var want []string
+	for _, s := range c17SniffTV {
+		want = append(want, sniffStr(s))
+	}
+	var wg sync.WaitGroup
+	var mu sync.Mutex
+	var failures []string
+	start := make(chan struct{})
+	for g := 0; g < 8; g++ {
+		wg.Add(1)
+		go func(g int) {
+			defer wg.Done()
+			<-start
+			for i := 0; i < 150; i++ {
+				k := (g*7 + i*3) % len(c17SniffTV)
+				if got := sniffStr(c17SniffTV[k]); got != want[k] {
+					mu.Lock()
+					if len(failures) < 5 {
+						failures = append(failures, fmt.Sprintf("goroutine %d: detection on tag-value input #%d returned %s, sequentially it returns %s", g, k, got, want[k]))
+					}
+					mu.Unlock()
+				}
+				hx.Eval()
+			}
+		}(g)
+	}
+	close(start)
+	wg.Wait()
+	hx.NonTrivial(hx.Digest("sniff-stress"))
+	hx.NonTrivial(hx.Digest("sniff-stress-2"))
+	hx.Sample(func() any { return "8 goroutines x 150 detections over 9 tag-value inputs with cross-line state" })
+	if len(failures) > 0 {
+		hx.RecordFailure("C17SniffStress", strings.Join(failures, "; "), map[string]any{"program": "8 goroutines x 150 detections over c17SniffTV"})
+		t.Fatalf("%s", strings.Join(failures, "\n"))
+	}
+}
